@@ -58,7 +58,7 @@ def main():
                                       "a == 1 and", "a in", "1 in", "a is", "a is not", "a is not empty or", 'a matches "("', "a == 1 and b == 2 or c == 3", "all a as x, x { x == 1 }", 'foo matches "("', 'a not matches "[a"', 'any x as v { v matches "(" }', 'm.k matches ")" or foo matches "a(b"', 'foo matches ""', " a == 1 ", "\ta == 1\n", "a == 1\r\n", "\n\n(a == 1)  "]]
     seeds += [["<B>"] + s for s in seeds[:8]] + [s + ["<B>"] for s in seeds[:8]]
     seeds = pegrun.cheap([s for s in seeds if s is not None], 20000, wd)
-    world = pegrun.peg_world(toks, 2 if quick else 3, 1, seeds, checked=True)
+    world = pegrun.peg_world(toks, 2 if quick else 3, 1, seeds, checked=True, later=pegrun.LATER[:16])
     res = pegrun.run_peg(chk, "c10", world, shapes=True)
     chk.cov["evaluations"] = res["inputs"]
     for m in res["shape"]:
